@@ -125,7 +125,8 @@ def call_contract(ex, module, qualname, argskw, node, self_obj=None):
         else:
             raise Unsupported('callee %s modifies a non-object argument %s' % (key, pname))
         from .mutate import note_param_mutation
-        note_param_mutation(ex, actual, node)
+        if not (qualname.endswith('.__init__') and pname == 'self'):
+            note_param_mutation(ex, actual, node)
     # a functional postcondition `result == E` gives the result directly (no fresh constant)
     res = None
     direct = None
@@ -280,6 +281,10 @@ def verify_function(eng, key, c, fdef=None, module=None):
             res.status, res.reason = 'unsupported', 'recursion limit in the generator'
             return res
         for ob in ex.obligations:
+            if c.options.get('frames') and ob.kind != 'frame':
+                # frame-only contract: loops are cut by the trivial invariant, so only the
+                # ownership obligations (which hold in every state or not at all) are meaningful
+                continue
             sig = (ob.name, ob.goal.sexpr(), tuple(p.sexpr() for p in ob.pc))
             h = hash(sig)
             if h in seen:
@@ -331,7 +336,9 @@ def run_path(ex, c, body, res):
     except (BreakSig, ContinueSig):
         raise Unsupported('break/continue outside a loop')
     except PyRaise as r:
-        check_raise(ex, c, r)
+        if not c.options.get('frames'):
+            check_raise(ex, c, r)
+        res.returns += 1
         return
     res.returns += 1
     # normal return: postconditions
